@@ -7,7 +7,7 @@ from lib import campaign as K
 META = {
     "claimed": True,
     "technique": "Lean 4 invariant proofs over a labelled message-movement model (buffers, wire FIFOs, walks, forwarding by Router.nextHop) + trace acceptance of real runs under simmpi",
-    "text": "Theorems C01_entries_are_the_asyncs / C01_exec_at_dest / C01_at_most_once / C01_exactly_once / C01_drain_bounded(_router) over YgmVerif.Deliver (and C02C01_exit_implies_all_executed over the product with the barrier model) prove for every layout, routing function and every label sequence "
+    "text": "Theorems C01_entries_are_the_asyncs / C01_exec_at_dest / C01_at_most_once / C01_exactly_once / C01_drain_bounded(_router) and the liveness half C01_never_stuck / C01_maximal_run_settled / C01_every_drain_settles(_router/_routerP) over YgmVerif.Deliver (and C02C01_exit_implies_all_executed over the product with the barrier model) prove for every layout, routing function and every label sequence "
             "accepted by the model's step that no message is lost, duplicated or executed off its destination and that no message circulates for ever. Event histories of "
             "real runs (asyncs, physical sends with their message lists, receives, executions, forwards) over layouts x routings x capacities x MPI configs x policies are "
             "replayed through that step (the hop chosen for every message, the content of every physical buffer and FIFO delivery must match); the property itself "
